@@ -6,6 +6,6 @@ EXPLANATION = ("Proved (64-bit sets as bit-vectors, complete): set_bit, bit_is_s
                "non-missing genotype, lists parents before children with the nearest mutation above as parent, and has exactly "
                "the minimum number of changes computed by an independent Sankoff DP.")
 C_FUNCS = [("trees.c", "set_bit"), ("trees.c", "bit_is_set"), ("trees.c", "get_smallest_set_bit")]
-BOUNDED = [{"name": "parsimony_vs_dp", "module": "standins.c20_parsimony", "timeout": 900}]
+BOUNDED = [{"name": "parsimony_vs_dp", "module": "standins.c20_parsimony", "timeout": 900, "asan": "thorough"}]
 UNVERIFIED = ["tsk_tree_map_mutations (bounded only)"]
 ASSUMPTIONS = []
